@@ -133,3 +133,177 @@ pub open spec fn fc_from(b: Seq<Stmt>, k: int, content: Seq<char>, tl: usize, li
 pub open spec fn spec_first_ctx(stmts: Seq<Stmt>, content: Seq<char>, tl: usize, li: Seq<usize>) -> Option<CtxV> {
     fc_from(stmts, 0, content, tl, li)
 }
+
+// ---- decorators and pytestmark assignments (check_decorator_context) -----------------------------------------
+/// `expr.range()` / `stmt.range()` (trait Ranged: the node's own `range` field, through a generated 27- / 28-arm
+/// match): left abstract, a function of the node
+pub uninterp spec fn expr_range(e: Expr) -> TextRange;
+pub uninterp spec fn stmt_range(s: Stmt) -> TextRange;
+pub assume_specification[ <Expr as rustpython_parser::ast::Ranged>::range ](e: &Expr) -> (r: TextRange)
+    ensures r == expr_range(*e);
+pub assume_specification[ <Stmt as rustpython_parser::ast::Ranged>::range ](s: &Stmt) -> (r: TextRange)
+    ensures r == stmt_range(*s);
+/// the cursor line lies within the lines a source range touches
+pub open spec fn in_lines(rg: TextRange, tl: usize, li: Seq<usize>) -> bool {
+    lno(li, tsv(tr_start(rg))) <= tl <= lno(li, tsv(tr_end(rg)))
+}
+/// one decorator: the cursor line is on it and it is a usefixtures mark (-> Usefixtures) or, failing that, a
+/// parametrize mark (-> Parametrize).  NOTE (as the code is written): ANY parametrize mark counts, with or without
+/// `indirect=`, and the whole decorator counts, not only its argument list.
+pub open spec fn deco_ctx(d: Expr, tl: usize, li: Seq<usize>) -> Option<CtxV> {
+    if !in_lines(expr_range(d), tl, li) { None }
+    else if spec_is_mark(&d, "usefixtures"@) { Some(CtxV::Usefixtures) }
+    else if spec_is_mark(&d, "parametrize"@) { Some(CtxV::Parametrize) }
+    else { None }
+}
+pub open spec fn decos_ctx(ds: Seq<Expr>, k: int, tl: usize, li: Seq<usize>) -> Option<CtxV>
+    decreases ds.len() - k
+{
+    if k < 0 || k >= ds.len() { None } else { opt_or(deco_ctx(ds[k], tl, li), decos_ctx(ds, k + 1, tl, li)) }
+}
+/// the decorators check_decorator_context looks at: those of functions and classes
+pub open spec fn stmt_decos(s: Stmt) -> Option<Seq<Expr>> {
+    match s {
+        Stmt::FunctionDef(f) => Some(f.decorator_list@),
+        Stmt::AsyncFunctionDef(f) => Some(f.decorator_list@),
+        Stmt::ClassDef(c) => Some(c.decorator_list@),
+        _ => None,
+    }
+}
+pub open spec fn is_pytestmark_name(e: Expr) -> bool {
+    match e { Expr::Name(n) => idv(&n.id) == "pytestmark"@, _ => false }
+}
+/// the value of `pytestmark = ...` (some target is the bare name) / `pytestmark: T = ...` (None without a value)
+pub open spec fn spec_pytestmark_value(s: Stmt) -> Option<Expr> {
+    match s {
+        Stmt::Assign(a) => if exists|i: int| 0 <= i < a.targets@.len() && is_pytestmark_name(#[trigger] a.targets@[i]) { Some(*a.value) } else { None },
+        Stmt::AnnAssign(a) => if is_pytestmark_name(*a.target) { match a.value { Some(v) => Some(*v), None => None } } else { None },
+        _ => None,
+    }
+}
+/// cursor_inside_usefixtures_call: the cursor line is on some `pytest.mark.usefixtures(...)` CALL inside the value
+/// (the value itself, or an element of a list / tuple, any nesting)
+pub open spec fn inside_uf(e: Expr, tl: usize, li: Seq<usize>) -> bool
+    decreases e, 0int
+{
+    match e {
+        Expr::Call(c) => spec_is_mark(&*c.func, "usefixtures"@) && in_lines(expr_range(e), tl, li),
+        Expr::List(l) => inside_uf_any(l.elts@, 0, tl, li),
+        Expr::Tuple(t) => inside_uf_any(t.elts@, 0, tl, li),
+        _ => false,
+    }
+}
+pub open spec fn inside_uf_any(es: Seq<Expr>, k: int, tl: usize, li: Seq<usize>) -> bool
+    decreases es, es.len() - k
+{
+    if k < 0 || k >= es.len() { false } else { inside_uf(es[k], tl, li) || inside_uf_any(es, k + 1, tl, li) }
+}
+/// what the exec function establishes about its result (object level: its body is one `match` expression, and the
+/// list / tuple arms are `iter().any(recursive closure)`); lifted to inside_uf by lemma_inside_post
+pub open spec fn inside_post(e: Expr, tl: usize, li: Seq<usize>, r: bool) -> bool
+    decreases e
+{
+    match e {
+        Expr::Call(c) => r == (spec_is_mark(&*c.func, "usefixtures"@) && in_lines(expr_range(e), tl, li)),
+        // (the two quantified arms are written out -- not a helper function -- so that ONE unfolding of inside_post
+        // exposes them to the solver; `es.as_ref()[i]` is what the slice iterator yields: the trigger)
+        Expr::List(l) => if r { exists|i: int| 0 <= i < l.elts@.len() && #[trigger] l.elts@.as_ref()[i] == &l.elts@[i] && inside_post(*l.elts@.as_ref()[i], tl, li, true) }
+            else { forall|j: int| 0 <= j < l.elts@.len() ==> (#[trigger] l.elts@.as_ref()[j] == &l.elts@[j] ==> inside_post(*l.elts@.as_ref()[j], tl, li, false)) },
+        Expr::Tuple(t) => if r { exists|i: int| 0 <= i < t.elts@.len() && #[trigger] t.elts@.as_ref()[i] == &t.elts@[i] && inside_post(*t.elts@.as_ref()[i], tl, li, true) }
+            else { forall|j: int| 0 <= j < t.elts@.len() ==> (#[trigger] t.elts@.as_ref()[j] == &t.elts@[j] ==> inside_post(*t.elts@.as_ref()[j], tl, li, false)) },
+        _ => !r,
+    }
+}
+pub proof fn lemma_inside_uf_any(es: Seq<Expr>, k: int, tl: usize, li: Seq<usize>)
+    requires 0 <= k,
+    ensures inside_uf_any(es, k, tl, li) == (exists|i: int| k <= i < es.len() && inside_uf(#[trigger] es[i], tl, li)),
+    decreases es.len() - k
+{
+    if k < es.len() {
+        lemma_inside_uf_any(es, k + 1, tl, li);
+        if inside_uf(es[k], tl, li) { assert(k <= k < es.len() && inside_uf(es[k], tl, li)); }
+    }
+}
+pub proof fn lemma_inside_post(e: Expr, tl: usize, li: Seq<usize>, r: bool)
+    requires inside_post(e, tl, li, r),
+    ensures r == inside_uf(e, tl, li),
+    decreases e
+{
+    match e {
+        Expr::List(l) => {
+            let es = l.elts@;
+            lemma_inside_uf_any(es, 0, tl, li);
+            if r {
+                let i = choose|i: int| 0 <= i < es.len() && #[trigger] es.as_ref()[i] == &es[i] && inside_post(*es.as_ref()[i], tl, li, true);
+                lemma_inside_post(es[i], tl, li, true);
+            } else {
+                assert forall|j: int| 0 <= j < es.len() implies !inside_uf(#[trigger] es[j], tl, li) by {
+                    let y = es.as_ref()[j];
+                    lemma_inside_post(es[j], tl, li, false);
+                }
+            }
+        }
+        Expr::Tuple(t) => {
+            let es = t.elts@;
+            lemma_inside_uf_any(es, 0, tl, li);
+            if r {
+                let i = choose|i: int| 0 <= i < es.len() && #[trigger] es.as_ref()[i] == &es[i] && inside_post(*es.as_ref()[i], tl, li, true);
+                lemma_inside_post(es[i], tl, li, true);
+            } else {
+                assert forall|j: int| 0 <= j < es.len() implies !inside_uf(#[trigger] es[j], tl, li) by {
+                    let y = es.as_ref()[j];
+                    lemma_inside_post(es[j], tl, li, false);
+                }
+            }
+        }
+        _ => {}
+    }
+}
+
+/// one statement: its decorators first, then a pytestmark assignment, then (classes) the body
+pub open spec fn dc_stmt(s: Stmt, tl: usize, li: Seq<usize>) -> Option<CtxV>
+    decreases s, 0int
+{
+    let by_deco = match stmt_decos(s) { Some(ds) => decos_ctx(ds, 0, tl, li), None => None };
+    let by_mark = match spec_pytestmark_value(s) {
+        Some(v) => if in_lines(stmt_range(s), tl, li) && inside_uf(v, tl, li) { Some(CtxV::Usefixtures) } else { None },
+        None => None,
+    };
+    let by_class = match s { Stmt::ClassDef(c) => dc_from(c.body@, 0, tl, li), _ => None };
+    opt_or(by_deco, opt_or(by_mark, by_class))
+}
+pub open spec fn dc_from(b: Seq<Stmt>, k: int, tl: usize, li: Seq<usize>) -> Option<CtxV>
+    decreases b, b.len() - k
+{
+    if k < 0 || k >= b.len() { None } else { opt_or(dc_stmt(b[k], tl, li), dc_from(b, k + 1, tl, li)) }
+}
+pub open spec fn spec_deco_ctx(stmts: Seq<Stmt>, tl: usize, li: Seq<usize>) -> Option<CtxV> { dc_from(stmts, 0, tl, li) }
+
+// ---- the whole query -------------------------------------------------------------------------------------------
+pub type CMod = rustpython_parser::ast::Mod;
+/// the parser as a function of the text (get_parsed_ast memoises it by content hash)
+pub uninterp spec fn parse_ok(src: Seq<char>) -> bool;
+pub uninterp spec fn ast_of(src: Seq<char>) -> CMod;
+/// the line index of a text (get_line_index memoises build_line_index: unit line_index)
+pub uninterp spec fn src_line_index(src: Seq<char>) -> Seq<usize>;
+/// get_completion_context_from_text (resolver.rs 628-986: the fallback scanner for text that does not parse):
+/// left abstract, a function of (text, 1-based line)
+pub uninterp spec fn text_ctx(src: Seq<char>, tl: usize) -> Option<CtxV>;
+/// get_completion_context: no text -> None; the text parses to a module -> decorator context, else function context,
+/// else the text fallback; it does not parse (or not to a module) -> the text fallback alone
+pub open spec fn spec_completion_ctx(content: Option<Seq<char>>, line: u32) -> Option<CtxV> {
+    match content {
+        None => None,
+        Some(c) => {
+            let tl = (line as usize + 1) as usize;
+            let li = src_line_index(c);
+            let ast_ctx = if parse_ok(c) {
+                match ast_of(c) {
+                    rustpython_parser::ast::Mod::Module(m) => opt_or(spec_deco_ctx(m.body@, tl, li), spec_first_ctx(m.body@, c, tl, li)),
+                    _ => None,
+                }
+            } else { None };
+            opt_or(ast_ctx, text_ctx(c, tl))
+        }
+    }
+}
